@@ -107,12 +107,14 @@ def multi_flat_kernel(
     kernel_result = np.zeros(result_len).astype(np.float64)
 
     ind = 0
-    for i, mset in enumerate(window[offset:]):
-        kernel_result[ind : ind + len(mset)] = np.repeat(ker[i], len(mset))
-        if mask_index is not None:
-            for w_i, token in enumerate(mset):
-                if token == mask_index:
-                    kernel_result[ind + w_i] = 0
+    for i, mset in enumerate(window):
+        # the first `offset` multisets keep weight 0; every multiset advances the write position
+        if i >= offset:
+            kernel_result[ind : ind + len(mset)] = np.repeat(ker[i], len(mset))
+            if mask_index is not None:
+                for w_i, token in enumerate(mset):
+                    if token == mask_index:
+                        kernel_result[ind + w_i] = 0
         ind += len(mset)
     kernel_result[target_ind] = 0
 
@@ -141,12 +143,14 @@ def multi_geometric_kernel(
 
     kernel_result = np.zeros(result_len).astype(np.float64)
     ind = 0
-    for i, mset in enumerate(window[offset:]):
-        kernel_result[ind : ind + len(mset)] = np.repeat(ker[i], len(mset))
-        if mask_index is not None:
-            for w_i, token in enumerate(mset):
-                if token == mask_index:
-                    kernel_result[ind + w_i] = 0
+    for i, mset in enumerate(window):
+        # the first `offset` multisets keep weight 0; every multiset advances the write position
+        if i >= offset:
+            kernel_result[ind : ind + len(mset)] = np.repeat(ker[i], len(mset))
+            if mask_index is not None:
+                for w_i, token in enumerate(mset):
+                    if token == mask_index:
+                        kernel_result[ind + w_i] = 0
         ind += len(mset)
     kernel_result[target_ind] = 0
 
